@@ -1,6 +1,6 @@
 #!/usr/bin/env python3
 """Run every check against scratch copies of /repo's tree with each given patch applied.
-usage: patch_eval.py <patch.diff>...   prints one line per patch: the checks that do not exit 0 (with the rules that fired)"""
+usage: patch_eval.py [<patch.diff>...]   (default: the 252 archived behaviour-preserving patches of seeded/bp) prints one line per patch: the checks that do not exit 0 (with the rules that fired)"""
 import json, os, shutil, subprocess, sys, tempfile, io, contextlib
 from concurrent.futures import ProcessPoolExecutor
 from pathlib import Path
@@ -74,7 +74,7 @@ def one(patch):
         shutil.rmtree(tmp, ignore_errors=True)
 
 if __name__ == '__main__':
-    patches = sys.argv[1:]
+    patches = sys.argv[1:] or sorted(str(p) for p in Path('/verif/seeded/bp').glob('*/patch*.diff'))
     verbose = os.environ.get('V')
     with ProcessPoolExecutor(int(os.environ.get("PE_JOBS", "16"))) as ex:
         for patch, row in ex.map(one, patches):
